@@ -8,6 +8,8 @@ import nego_common as nc, vlib
 
 def kslabel(s):
     """Signature suffix of a chosen key-share list: which kind of share precedes the selected one."""
+    if s.get("fp_copy"):
+        return ":fpcopy"
     ks = s.get("ks_list") or []
     if not ks:
         return ""
@@ -39,6 +41,10 @@ def run(ctx):
                 continue
             seen.add((x["id"], x["group"]))
             out.append(dict(x, ks_list=[x["group"]]))
+            # a fingerprinted copy of the parrot's own hello (captured shares must not be re-sent: the copy generates
+            # its own keys and holds the private key of every share, hybrid ones included)
+            if x["group"] in (4588, 29) and "Randomized" not in x["id"]:
+                out.append(dict(x, fp_copy=True))
             for h in sorted(groups_of[x["id"]] - {x["group"]}):
                 if h in (23, 4588) or (h == 29 and x["group"] == 23):
                     out.append(dict(x, ks_list=[h, x["group"]]))
@@ -54,6 +60,8 @@ def run(ctx):
             raise vlib.Machinery("NegoMC_c18kx produced no compliant / no deviating hybrid scenario (no parrot offers group 25497 any more?)")
         if ctx.quick:
             k = [x for x in k if x["suite"] == 4865]
+        # the same from a fingerprinted copy of the parrot's hello
+        k = k + [dict(x, fp_copy=True) for x in k if x["mode"] == "compliant"]
         return k
     scns, events, rej, unadv, mc = nc.run_nego(ctx, "c10", subset=subset, extra_scn=kx_scenarios, shards=8)
     kx = [s for s in scns if s.get("kx_secret")]
@@ -87,8 +95,16 @@ def run(ctx):
     import data
     n = 16 if ctx.quick else 128
     ids = sorted({s["id"] for s in scns})
-    hel = [e for e in ctx.drv("hellos", {"cases": [{"id": i, "sni": "example.com", "n": n, "omit": True} for i in ids]}) if e["ev"] == "Hello" and e["sent"]]
-    ctx.write_ndjson("c18_hellos.ndjson", [{"id": e["id"], "raw": e["raw"]} for e in hel])
+    # ... and of connections whose spec is fingerprinted from one captured hello of the parrot (a captured share must
+    # never be sent again)
+    fpids = [i for i in ids if "Randomized" not in i and "Golang" not in i]
+    cases = [{"id": i, "sni": "example.com", "n": n, "omit": True} for i in ids] + \
+            [{"id": i, "sni": "example.com", "n": max(4, n // 4), "omit": True, "fp": True, "tag": "fp"} for i in fpids]
+    hel = [e for e in ctx.drv("hellos", {"cases": cases}) if e["ev"] == "Hello" and e["sent"]]
+    nfp = sum(1 for e in hel if e.get("tag") == "fp")
+    if nfp == 0:
+        raise vlib.Machinery("vacuous: no hello from a fingerprinted copy was sent")
+    ctx.write_ndjson("c18_hellos.ndjson", [{"id": e["id"] + ("/fingerprinted-copy" if e.get("tag") == "fp" else ""), "raw": e["raw"]} for e in hel])
     res = ctx.tlc("C18Fresh", timeout=900)
     done = res.tagged("DONE")
     if not done or done[0] != len(hel):
@@ -103,7 +119,7 @@ def run(ctx):
         raise vlib.Machinery("vacuous: ok=%d hrr=%d" % (ok, hrr))
     cov = {"evaluations": len(scns) + len(hel), "distinct_nontrivial": len(scns),
            "rule": "every TLS 1.3 parrot x every offered group the server implements (quick: one suite per group; thorough: every suite); plus %d fresh hellos per parrot for the freshness formula; distinct = (parrot, group[, suite]) scenarios" % n,
-           "samples": [nc.scn_brief(s) for s in scns[:3]], "completed": ok, "via_hrr": hrr, "fresh_hellos": len(hel),
+           "samples": [nc.scn_brief(s) for s in scns[:3]], "completed": ok, "via_hrr": hrr, "fresh_hellos": len(hel), "fresh_hellos_from_fingerprinted_copies": nfp,
            "hybrid_kx_by_test_server": {"scenarios": len(kx), "prescribed_layout_completed": kx_ok, "deviating_layout_refused": kx_refused,
                                         "model_states": kxstat.get("model")}, "exhaustive": not ctx.quick}
     return "model_checking", cov, ["QUIC empty legacy session id is checked by C23", "randomized specs: C09"]
